@@ -45,6 +45,34 @@ func mustPassThrough(from, to, via *ssa.BasicBlock) bool {
 	return !dfs(from)
 }
 
+// mustPassThroughUnless is mustPassThrough that ignores the edges `exempt` accepts.
+func mustPassThroughUnless(from, to, via *ssa.BasicBlock, exempt func(from, to *ssa.BasicBlock) bool) bool {
+	if from == via {
+		return true
+	}
+	seen := map[*ssa.BasicBlock]bool{via: true}
+	var dfs func(b *ssa.BasicBlock) bool
+	dfs = func(b *ssa.BasicBlock) bool {
+		if seen[b] {
+			return false
+		}
+		seen[b] = true
+		for _, s := range b.Succs {
+			if exempt(b, s) {
+				continue
+			}
+			if s == to {
+				return true
+			}
+			if dfs(s) {
+				return true
+			}
+		}
+		return false
+	}
+	return !dfs(from)
+}
+
 // callLoop finds a `for X.M(...) { }` loop: a block ending in `if call goto body else done`.
 type callLoop struct {
 	Header, Body, Done *ssa.BasicBlock
